@@ -237,6 +237,21 @@ CHECKS['C40'] = {
     'explanation': 'Known finding: the control point can be read although it is declared no_read_access (C06), which ends a procedure early.',
 }
 
+
+CHECKS['C39'] = {
+    'harnesses': [{'harness': 'bl_sim', 'binary': 'bl_sim'}],
+    'technique': 'deterministic simulation: seeded client / flash hardware / link interleavings on the bootloader service with a simulated memory that records every handler access, under ASan',
+    'design_ref': 'DESIGN.md 4.3, 6 (C39)',
+    'level_text': 'Seeded search over sequences of control point writes (every opcode, lengths from 1 byte to the MTU, addresses inside, at the borders of, straddling and outside the white listed regions, as Write Requests and '
+                  'Write Commands), data writes of 0..MTU-3 bytes, subscriptions, MTU exchange, late polls and flash completions that arrive any number of steps later (up to two pages outstanding, also across a restarted '
+                  'procedure), for four configurations (page size 16/64/256, regions aligned and not aligned to pages). Oracles: every read_mem / start_flash / checksum32 / public_read_mem / public_checksum32 call of the user '
+                  'handler lies entirely inside a white listed region; control point values are exactly sized heap blocks (ASan reports a read behind them); every page handed to start_flash is one whole aligned page whose bytes '
+                  'are the client\'s bytes at the addresses the client named and the old memory content elsewhere; the checksum announced by progress notifications is the chain over the data up to a page boundary or flush point. Sampling, not proof.',
+    'level_note': 'trusted: the session model in harness/bl_sim.cpp (a control point write other than Flush ends the session, a refused or unanswered data write makes the client start over); the user handler (memory, checksums, flash hardware) and the link layer are stubs',
+    'assumptions': ['addresses are sizeof( std::uint8_t* ) = 8 bytes on the host', 'one connection'],
+    'explanation': 'A sanitizer abort counts as a violation for this property. Known finding: a flash completion that belongs to a restarted procedure is attributed to the new one.',
+}
+
 # properties that are deliberately not decided by simulation (see DESIGN.md section 7)
 NOT_APPLICABLE = {
     'C04': 'compile-time mapping of the declaration to handles: no schedule, clock, fault or history can influence it (DESIGN.md 7); mapping errors still surface under C02/C03, whose model has an independent handle table',
